@@ -180,30 +180,30 @@ Fixpoint eval_node (t : tree) (U : tt) (c : ectx) {struct t} : res (tt * ectx) :
           finish (eval_jump G U a e, c1)
       | Hybrid o x d ch =>
           let c0 := set_free c (sinsert x d (free_doms c)) in
-          let* (r, c1) :=
-            match d with
-            | None =>
-                let* (a, c1) := eval_node ch U c0 in
-                let* e := hctl_var_id G x in
-                let* r := eval_hybrid_quantifier U U o e a in
-                Ok (r, c1)
-            | Some dl =>
-                match alookup str_eqb dl (domain_sets c0) with
-                | None => Panic PDomainLookup
-                | Some dset =>
-                    let* e := hctl_var_id G x in
-                    let var_domain := compute_valid_domain_for_var G U dset e in
-                    let Ur := tand U var_domain in
-                    if is_empty Ur then
-                      (* no admissible value for the variable (for any colour) *)
-                      Ok (match o with Forall => U | _ => empty G end, c0)
-                    else
-                      let* (a, c1) := eval_node ch Ur c0 in
-                      let* r := eval_hybrid_quantifier U Ur o e a in
-                      Ok (r, c1)
-                end
-            end in
-          finish (r, set_free c1 (aremove str_eqb x (free_doms c1)))
+          let close (c1 : ectx) := set_free c1 (aremove str_eqb x (free_doms c1)) in
+          match d with
+          | None =>
+              let* (a, c1) := eval_node ch U c0 in
+              let* e := hctl_var_id G x in
+              let* r := eval_hybrid_quantifier U U o e a in
+              finish (r, close c1)
+          | Some dl =>
+              match alookup str_eqb dl (domain_sets c0) with
+              | None => Panic PDomainLookup
+              | Some dset =>
+                  let* e := hctl_var_id G x in
+                  let var_domain := compute_valid_domain_for_var G U dset e in
+                  let Ur := tand U var_domain in
+                  if is_empty Ur then
+                    (* no admissible value for the variable (for any colour): early return,
+                       the scope is closed, nothing is saved to the cache *)
+                    Ok (match o with Forall => U | _ => empty G end, close c0)
+                  else
+                    let* (a, c1) := eval_node ch Ur c0 in
+                    let* r := eval_hybrid_quantifier U Ur o e a in
+                    finish (r, close c1)
+              end
+          end
       end
   end.
 
